@@ -3,6 +3,7 @@ import Zc.Proofs.SurviveFlush
 import Zc.Proofs.SurviveUser
 import Zc.Proofs.CacheExpire
 import Zc.Proofs.History
+import Zc.Proofs.Wire.Reject
 /-! Every block of `Model/SurviveApi` — registration API, browser and lookup start/stop, the periodic purge, listener and future
 bookkeeping — returns normally from a state satisfying the full invariant `CFInv` and re-establishes it (C15), given
 
@@ -65,14 +66,96 @@ def SvcSafe (s : Svc) : Prop := ∀ r ∈ RespSpec.own lower ettl s, RecSafe (wi
 /-- the dry-run encode of the D28 repair accepts `s`: `generate_service_broadcast(info, None).packets()` returns -/
 def DryRun (s : Svc) : Prop := encodesFirst true s = .ok ()
 
-/-- **what is left of the data hypothesis after D28** (review 3): only a service that *passes the dry-run encode* has to have
-encodable own records.  A service the dry run refuses never reaches the registry (`registerE_dryRun`, `updateE_dryRun`: by the
-translated leaves `register_encodes_first` / `update_encodes_first`, which are `true` on the repaired tree — `register_leaf_on`,
-`update_leaf_on` are `rfl` and stop building when D28 is reverted).  The implication itself is a statement about the encoder model alone
-(the dry run writes PTR, SRV, TXT and the address records — every name and every field of `RespSpec.own s` occurs in them; the two
-records it does not write, the enumeration pointer and the NSEC record, reuse the type and the instance name): the converse of
-`packets_total`, not proved here. -/
+/-- "a service that passes the dry-run encode has encodable own records".  A service the dry run refuses never reaches the registry
+(`registerE_dryRun`, `updateE_dryRun`: by the translated leaves `register_encodes_first` / `update_encodes_first`, which are `true` on the
+repaired tree — `register_leaf_on`, `update_leaf_on` are `rfl` and stop building when D28 is reverted).  The implication is **not a theorem
+for every service** (`dryRunSound_refuted_lower`, `dryRunSound_refuted_ettl`; on the code: a record that alone exceeds 8 966 bytes ends
+`packets()` without raising and shields the records behind it); it is one for arguments in range: `dryRun_sound` below. -/
 def DryRunSound (s : Svc) : Prop := DryRun s → SvcSafe lower ettl s
+
+/-- the message the dry run encodes: `generate_service_broadcast(info, None)` — PTR, SRV, TXT and the address records as answers -/
+def dryMsg (s : Svc) : Encode.Msg := multicastMsg ⟨(broadcastRecs s).map wireOfRec, []⟩
+
+/-- **what the dry run does NOT establish** (`DryRunSound` is false as stated: `dryRunSound_refuted_*` in `Props/C15Names`, and on the
+real code `notes/fixes/C15RES-FR4-dry-run-shielded.py`).  The dry run is one `packets()` call on the announcement, so it proves exactly
+one thing about every record it gets to: no label is longer than 63 bytes.  It says nothing when
+* `mixed` fails — a numeric field is out of range (port / weight / priority ≥ 65536, a TTL ≥ 2³², TXT or an address longer than 60 000
+  bytes, a name whose wire form exceeds 1 100 bytes): for these `RecSafe` is only a *sufficient* bound of the encoder, not what it accepts;
+* `fits` fails — some record of the announcement alone exceeds 8 966 bytes: `packets()` then stops ("no progress") **without raising** and
+  the records behind it are never encoded (a 9 kB `server` shields a 70 kB TXT: the service registers, and the first TXT query raises
+  `struct.error` out of `datagram_received`);
+* `enum` fails — the case folding `lower` of the model lengthens a label of the type (the enumeration pointer is not part of the
+  announcement; no such `lower` is ever used: `asciiLower` maps bytes to bytes). -/
+structure ArgsInRange (s : Svc) : Prop where
+  mixed : ∀ r ∈ RespSpec.own lower ettl s, RecSafe (wireOfRec r) 0 ∨ Encode.RecLong (wireOfRec r) 0
+  fits : Encode.FitAll (dryMsg s)
+  enum : ¬ Encode.RecLong (wireOfRec (RespSpec.enumPtr ettl (lower s.type))) 0
+
+/-- **the dry run is sound for arguments in range**: a service whose fields are in range (`ArgsInRange`) and that passes D28's dry-run
+encode has encodable own records — every label of every name (instance, type, `server`) is at most 63 bytes.  From the rejection half of
+C01's dichotomy (`Encode.packets_rejects`: a message with an over-long label among otherwise acceptable entries that each fit a datagram
+is refused with `NamePartTooLongException`). -/
+theorem dryRun_sound {s : Svc} (h : ArgsInRange lower ettl s) : DryRunSound lower ettl s := by
+  intro hdry
+  have hsub : ∀ r ∈ broadcastRecs s, r ∈ RespSpec.own lower ettl s := by
+    intro r hr
+    simp only [broadcastRecs, List.cons_append, List.nil_append, List.mem_cons] at hr
+    simp only [RespSpec.own, List.cons_append, List.nil_append, List.mem_cons, List.mem_append]
+    rcases hr with h1 | h1 | h1 | h1
+    · exact Or.inr (Or.inl h1)
+    · exact Or.inr (Or.inr (Or.inl h1))
+    · exact Or.inr (Or.inr (Or.inr (Or.inl h1)))
+    · exact Or.inr (Or.inr (Or.inr (Or.inr (Or.inl h1))))
+  have hmixed : Encode.MsgMixed (dryMsg s) := by
+    refine ⟨by show Gen.flagsQrResponseAa < 65536; decide, by show (0 : Nat) < 65536; decide,
+      by intro q hq; simp [dryMsg, multicastMsg] at hq, ?_, by intro r hr; simp [dryMsg, multicastMsg] at hr,
+      by intro r hr; simp [dryMsg, multicastMsg] at hr⟩
+    intro x hx
+    simp only [dryMsg, multicastMsg, List.mem_map] at hx
+    obtain ⟨e, ⟨r, hr, rfl⟩, rfl⟩ := hx
+    exact h.mixed r (hsub r hr)
+  have hnl : ∀ r ∈ broadcastRecs s, ¬ Encode.RecLong (wireOfRec r) 0 := by
+    intro r hr hlong
+    have hbad : Encode.HasLongEntry (dryMsg s) := by
+      refine Or.inr (Or.inl ⟨(wireOfRec r, 0), ?_, hlong⟩)
+      simp only [dryMsg, multicastMsg, List.drop_zero, List.mem_map]
+      exact ⟨wireOfRec r, ⟨r, hr, rfl⟩, rfl⟩
+    have hrej := Encode.packets_rejects (dryMsg s) hmixed h.fits hbad
+    unfold DryRun encodesFirst at hdry
+    simp only [if_true] at hdry
+    unfold dryMsg at hrej
+    rw [hrej] at hdry
+    cases hdry
+  intro r hr
+  rcases h.mixed r hr with hs | hl
+  · exact hs
+  · exfalso
+    simp only [RespSpec.own, List.cons_append, List.nil_append, List.mem_cons, List.mem_append] at hr
+    rcases hr with h1 | h1 | h1 | h1 | h1 | h1
+    · rw [h1] at hl; exact h.enum hl
+    · exact hnl r (by simp [broadcastRecs, h1]) hl
+    · exact hnl r (by simp [broadcastRecs, h1]) hl
+    · exact hnl r (by simp [broadcastRecs, h1]) hl
+    · exact hnl r (by simp [broadcastRecs, h1]) hl
+    · -- the NSEC record: owner and next name are the instance name, whose labels the SRV record has shown to be short
+      have hsrv : RecSafe (wireOfRec (RespSpec.srvOf s)) 0 := by
+        have hm : RespSpec.srvOf s ∈ broadcastRecs s := by simp [broadcastRecs]
+        rcases h.mixed _ (hsub _ hm) with h2 | h2
+        · exact h2
+        · exact absurd h2 (hnl _ hm)
+      have hname : ∀ l ∈ labelsOfText s.name, l.length ≤ 63 := hsrv.1.1
+      unfold RespSpec.nsecOf at h1
+      split at h1
+      · simp at h1
+      · simp only [List.mem_singleton] at h1
+        rw [h1] at hl
+        rcases hl with ⟨l, hl1, hl2⟩ | ⟨_, _, _, _, _, l, hl1, hl2⟩
+        · have := hname l hl1; omega
+        · have := hname l hl1; omega
+
+/-- a service with encodable own records whose announcement records each fit a datagram has its arguments in range -/
+theorem ArgsInRange.of_safe {s : Svc} (hs : SvcSafe lower ettl s) (hf : Encode.FitAll (dryMsg s)) : ArgsInRange lower ettl s :=
+  ⟨fun r hr => Or.inl (hs r hr), hf, Encode.not_long_of_safe_r (hs _ (by simp [RespSpec.own]))⟩
 
 theorem register_leaf_on : Gen.SurviveApi.register_encodes_first = true := rfl
 theorem update_leaf_on : Gen.SurviveApi.update_encodes_first = true := rfl
@@ -550,8 +633,8 @@ theorem waitTimeout_ok {d : CS υ} (hI : Full lower ettl Iυ d) (id : Nat) :
 
 /-- **what is assumed of the arguments the application passes to the API** (no hypothesis on states) -/
 def ApiSafe : ApiBlock υ → Prop
-  | .register s _ => DryRunSound lower ettl s
-  | .update s => DryRunSound lower ettl s
+  | .register s _ => ArgsInRange lower ettl s
+  | .update s => ArgsInRange lower ettl s
   | .browserStart cfg _ => TypesSafe cfg.types
   | .lookupStart name _ => NameTextSafe name
   | .addUser u => Iυ u
@@ -563,10 +646,10 @@ theorem apiStep_ok (glue : TextGlue) (hU : UserOK U Iυ) {d : CS υ} (hI : Full 
     ∃ d' o, apiStep lower possible U upd d b = .ok (d', o) ∧ Full lower ettl Iυ d' ∧ ∀ P : Rec → Prop, CacheAll P d.cache → CacheAll P d'.cache := by
   cases b with
   | register s strict =>
-    obtain ⟨d', h, hI', hc⟩ := register_ok lower possible ettl U upd Iυ hI s strict hb
+    obtain ⟨d', h, hI', hc⟩ := register_ok lower possible ettl U upd Iυ hI s strict (dryRun_sound lower ettl hb)
     exact ⟨d', [], h, hI', by rw [hc]; exact fun P hP => hP⟩
   | update s =>
-    obtain ⟨d', h, hI', hc⟩ := update_ok lower possible ettl U upd Iυ hI s hb
+    obtain ⟨d', h, hI', hc⟩ := update_ok lower possible ettl U upd Iυ hI s (dryRun_sound lower ettl hb)
     exact ⟨d', [], h, hI', by rw [hc]; exact fun P hP => hP⟩
   | unregister s =>
     obtain ⟨d', h, hI'⟩ := unregister_ok lower possible ettl U upd Iυ hI s
